@@ -11,6 +11,7 @@ import (
 	realos "os"
 	"strings"
 	"sync"
+	"sync/atomic"
 	"syscall"
 	"time"
 
@@ -173,7 +174,21 @@ func (f *File) WriteAt(b []byte, off int64) (int, error) {
 }
 
 func (f *File) Read(b []byte) (int, error)              { return f.f.Read(b) }
-func (f *File) ReadAt(b []byte, off int64) (int, error) { return f.f.ReadAt(b, off) }
+func (f *File) ReadAt(b []byte, off int64) (int, error) {
+	if atomic.LoadInt64(&readFault) > 0 && atomic.AddInt64(&readFault, -1) == 0 {
+		return 0, injected("read", f.path)
+	}
+	return f.f.ReadAt(b, off)
+}
+
+// readFault > 0: the readFault-th positional read from now (of any file) fails with an injected I/O error.
+var readFault int64
+
+// SetReadFault arms (k > 0) or disarms (0) the positional-read fault.
+func SetReadFault(k int64) { atomic.StoreInt64(&readFault, k) }
+
+// ReadFaultPending reports whether an armed fault has not been hit yet.
+func ReadFaultPending() bool { return atomic.LoadInt64(&readFault) > 0 }
 func (f *File) Seek(o int64, w int) (int64, error)      { return f.f.Seek(o, w) }
 func (f *File) Stat() (FileInfo, error)                 { fi, err := f.f.Stat(); return coarse(fi), err }
 func (f *File) Sync() error                             { return f.f.Sync() }
